@@ -41,6 +41,12 @@ impl Oracle for ValueOracle {
             StepRes::Got { key, real, want } => {
                 match (real, want) {
                     (_, Err(RPanic::Either)) => {}
+                    (Err(_), Err(RPanic::EitherValue(_))) => {}
+                    (Ok(g), Err(RPanic::EitherValue(v))) => {
+                        if g.v != *v {
+                            out.push(viol("value-mismatch", cx.idx, format!("get{key:?}: value {} != reference {v} (a cycle through functions with and without recovery that does not panic must yield the least fixpoint)", g.v)));
+                        }
+                    }
                     (Err(p), Err(RPanic::Cycle)) => {
                         let t = p.text();
                         if !(t.contains("dependency graph cycle") || t.contains("PropagatedPanic")) {
